@@ -230,6 +230,47 @@ def structured(rng, h, w):
     return kind, a
 
 
+def trident(rng):
+    """three diagonal arms meeting in one cell under the 8-neighbourhood: a short NW arm (fresh, high
+    provisional label), a long arm arriving from the SW that started in row 0 (low label) and a NE arm:
+    the pass-2 window of the meeting cell captures [high, low, other] in that order"""
+    k1 = rng.randrange(1, 3)
+    k3 = rng.randrange(1, 4)
+    y = max(k1, k3) + rng.randrange(1, 3)
+    x = k1 + 2 + rng.randrange(0, 2)
+    h = y + 2 + rng.randrange(0, 2)
+    w = x + k3 + 1 + rng.randrange(0, 2)
+    a = np.full((h, w), 9, dtype=np.int64)
+    a[y, x] = 0
+    for t in range(1, k1 + 1):
+        a[y - t, x - t] = 0
+    for t in range(1, k3 + 1):
+        a[y - t, x + t] = 0
+    xc = x - k1 - 2
+    a[0:y + 2, xc] = 0
+    a[y + 1, xc:x] = 0
+    return a
+
+
+def diag_tree(rng, h, w):
+    """sparse diagonal random walks of one value on a background of another"""
+    a = np.full((h, w), 9, dtype=np.int64)
+    for _ in range(rng.randrange(2, 6)):
+        y, x = rng.randrange(h), rng.randrange(w)
+        dy, dx = rng.choice([-1, 1]), rng.choice([-1, 1])
+        for _ in range(rng.randrange(2, max(h, w) + 1)):
+            if not (0 <= y < h and 0 <= x < w):
+                break
+            a[y, x] = 0
+            if rng.random() < 0.15:
+                dx = -dx
+            if rng.random() < 0.1:
+                dy = -dy
+            y += dy
+            x += dx
+    return a
+
+
 def random_raster(rng, h, w, nvals, nan_p, flip_p=None):
     if flip_p is None:
         vals = [rng.randrange(nvals) for _ in range(h * w)]
@@ -252,7 +293,7 @@ def random_raster(rng, h, w, nvals, nan_p, flip_p=None):
 
 def gen_case(rng, big=False):
     """a case inside the property's domain (integer-valued, small alphabet)"""
-    mode = rng.choice(["rand", "rand", "blob", "struct", "struct", "line"])
+    mode = rng.choice(["rand", "rand", "blob", "struct", "struct", "line", "trident", "diag"])
     hi = 12 if big else 8
     h, w = rng.randrange(1, hi + 1), rng.randrange(1, hi + 3)
     if mode == "line":
@@ -263,7 +304,18 @@ def gen_case(rng, big=False):
             w = 1
             h = rng.randrange(1, 30)
     n = rng.choice([4, 8])
-    if mode == "struct" and h >= 2 and w >= 2:
+    if mode == "trident":
+        a = trident(rng)
+        if rng.random() < 0.2:
+            a = a[:, ::-1].copy()
+        a = a.astype(np.float64)
+        n = 8 if rng.random() < 0.8 else 4
+        tag = "struct:trident"
+    elif mode == "diag" and h >= 3 and w >= 3:
+        a = diag_tree(rng, h, w).astype(np.float64)
+        n = 8 if rng.random() < 0.8 else 4
+        tag = "struct:diag"
+    elif mode == "struct" and h >= 2 and w >= 2:
         kind, a = structured(rng, h, w)
         a = a.astype(np.float64)
         tag = "struct:" + kind
